@@ -7,6 +7,8 @@ partial assignments).  References/derefs are transparent (the expression names
 the referenced value).  Nothing is evaluated except constant folding.
 """
 from .mir import CalleeView, norm
+import sys
+sys.setrecursionlimit(20000)
 
 MASK = {8: 0xFF, 16: 0xFFFF, 32: 0xFFFFFFFF, 64: (1 << 64) - 1, 128: (1 << 128) - 1}
 INT_BITS = {"u8": 8, "u16": 16, "u32": 32, "u64": 64, "u128": 128, "usize": 64,
@@ -34,7 +36,7 @@ def is_const(e):
 
 
 class Origin:
-    def __init__(self, body, prog=None, max_depth=40):
+    def __init__(self, body, prog=None, max_depth=220):
         self.b = body
         self.prog = prog or body.prog
         self.max_depth = max_depth
